@@ -49,6 +49,12 @@ class Gen:
 
     def exec_stmt(self):
         r = self.rng
+        if self.pool is KWPREF and r.random() < 0.5:
+            # statements that *start* with a keyword-prefixed identifier
+            return self.leaf(r.choice(["blocksize(1) = 3", "do_x = 1", "endif_v = 2", "type_a = 1", "where_v(1) = 2", "if_cond = 3", "selector = 1",
+                                       "interface_x = 1", "module_v = 2", "enddo = 1", "contains_x = 1", "function_f = 2", "program_p = 1",
+                                       "critical_v = 1", "associate_a = 1", "use_it = 1", "implicit_v = 1", "data_blk = 1", "call blocksize(x)",
+                                       "blocksize = blocksize + 1", "print *, blocksize"]), "LPlain")
         v = r.choice(["x", "y", "arr(1)"])
         return self.leaf(r.choice(["%s = %s + 1" % (v, v), "call ext_sub(%s)" % v, "print *, %s" % v, "continue", "%s=2" % v]), "LPlain")
 
